@@ -1,18 +1,23 @@
 """C04 - session establishment fails closed under faults.
 A: TLC design check of tla/Faults.tla (+ the fault/cancel rules of Negotiation.tla), six code-like
 deviations must each break it.  B/C: fault ENUMERATION over the standard handshakes of the real
-library - both ends real sessions (or a scripted component server) on an in-memory pipe; for the
-side under test: the peer's byte stream cut after every prefix length, every read and every write
-failing, the context cancelled at every transport operation (peer keeps playing / goes silent) -
-each run's trace validated by TLC; plus seeded negotiation scenarios with faults (Negotiation.tla)."""
+library - both ends real sessions (or a scripted component server) on an in-memory pipe - and over
+the ABORT paths of negotiation (a scripted peer provokes a stream-level abort: unadvertised /
+repeated / premature selection, stream error, garbage, bad or mismatching header, SASL failure,
+malformed features); for the side under test: the peer's byte stream cut after every prefix length,
+every read and every write failing, the context cancelled at every transport operation (peer keeps
+playing / goes silent / has stopped reading too) - each run's trace validated by TLC; plus seeded
+negotiation scenarios with faults and with failing List / Parse / Negotiate steps (Negotiation.tla)."""
 import json, re
+from concurrent.futures import ThreadPoolExecutor
 import verif
 import negcommon as nc
 
 INVS = ["C04_FaultImpliesError", "C04_NoSwallow", "C04_ErrNotReady", "C04_OkMeansReady", "C04_NoStall"]
 MC = ("CONSTANTS\n  MaxSteps = %d\n  Dev = %s\nSPECIFICATION Spec\n" + "".join("INVARIANT %s\n" % i for i in INVS)
       + "PROPERTY C04_NoStepSucceedsAfterFault\nCHECK_DEADLOCK FALSE\n")
-DEVS = ["SwallowStepError", "IgnoreFault", "LoseCancellation", "ReadyOnError", "StallAfterCancel", "StepSucceedsAfterFault", "DeadlineCtxLosesCancel"]
+DEVS = ["SwallowStepError", "IgnoreFault", "LoseCancellation", "ReadyOnError", "StallAfterCancel", "StepSucceedsAfterFault", "DeadlineCtxLosesCancel",
+        "AbortNoticeOutsideWatch"]
 
 
 def validate(ctx, trace):
@@ -31,21 +36,28 @@ def validate(ctx, trace):
 def run(ctx):
     quick = ctx.tier == "quick"
     mc = ctx.model_check("Faults", MC % (4 if quick else 6, "{}"), INVS + ["C04_NoStepSucceedsAfterFault"], timeout=600)
-    for d in DEVS:
-        bad = ctx.tlc("Faults", MC % (3, '{"%s"}' % d), name="Faults_" + d, timeout=300)
+    ex = ThreadPoolExecutor(max_workers=6)
+    def dev(d):
+        bad = ctx.tlc("Faults", MC % (3, '{"%s"}' % d), name="Faults_" + d, workers=2, timeout=300)
         if bad.rc == 0:
             raise verif.Undecided("design check is vacuous: deviation %s breaks nothing" % d)
-    mcn = ctx.model_check("MCNegotiation", nc.MC_CFG % dict(pool="PoolQuick", maxcfg=2, rounds=2, maxlist=2),
-                          ["C04_NoSwallow, C04_ErrNotReady (Negotiation.tla, faults and cancellation)"], timeout=1500)
+    futs = [ex.submit(dev, d) for d in DEVS] + nc.nonvacuity(ctx, ex)
     b = ctx.go_build("faults")
     tr = ctx.path("faults-trace.ndjson")
     env = {}
     if ctx.replay:
         case = json.load(open(ctx.replay))["case"]
         env["FAULTS_ONLY"] = case["run"]["handshake"]
-    out = ctx.run_driver(b, ["run", tr], env=env, timeout=2400)
+    # the fault enumeration (sequential Go, mostly waiting) runs beside the design check of Negotiation.tla
+    drv = ex.submit(ctx.run_driver, b, ["run", tr], env=env, timeout=2400)
+    mcn = ctx.model_check("MCNegotiation", nc.MC_CFG % dict(pool="PoolQuick", maxcfg=2, rounds=2, maxlist=2),
+                          ["C04_NoSwallow, C04_ErrNotReady (Negotiation.tla: failing Negotiate / List / Parse steps, faults and cancellation)"], timeout=1500)
+    for f in futs:
+        f.result()
+    out = drv.result()
+    ex.shutdown()
     summ = json.loads(out[out.rindex("SUMMARY ") + 8:])
-    bad_base = [x for x in summ["extra"]["baselines"] if not x["baseline_ok"] and not x["handshake"].startswith("volfail")]
+    bad_base = [x for x in summ["extra"]["baselines"] if not x["baseline_ok"] and not x["handshake"].startswith(("volfail", "abort-"))]
     if bad_base:
         raise verif.Undecided("fault-free handshake does not complete (driver problem): %s" % bad_base)
     rej, r = validate(ctx, tr)
@@ -63,7 +75,7 @@ def run(ctx):
         seen.add(key)
         what = "handshake under a fault is not a behaviour of Faults.tla"
         if ev and ev[0].get("ev") == "stall":
-            what = "the call outlived the fault / cancellation (blocked until the watchdog)"
+            what = "the call outlived the fault / cancellation (%s)" % ev[0].get("why", "blocked until the watchdog")
         ctx.violation("%s: %s rejected at %s" % (what, json.dumps(m), json.dumps(ev[0] if ev else None)[:200]),
                       {"family": "faults", "run": m, "trace": trs[t], "rejected_line": hw, "rejected_event": ev[0] if ev else None})
     # seeded negotiation scenarios with read/write faults and cancellation (instrumented features)
@@ -76,15 +88,15 @@ def run(ctx):
     ctx.write_evidence("fault_enumeration", {
         "evaluations": summ["evaluations"] + summn["evaluations"],
         "distinct_nontrivial": summ["distinct"],
-        "rule": "for each handshake (sasl+bind on a secure stream, STARTTLS+SASL+bind with real TLS, WebSocket framing, a failing voluntary feature, XEP-0114 component) and each side under test: the peer's byte stream ends after every prefix length (quick: first/last 48 bytes and every 5th in between; thorough: every byte), the k-th read fails, the k-th write fails, the context is cancelled at the k-th transport operation with the peer playing on and with the peer silent (also with a context that carries a far-off deadline of its own), for every k; a class is (handshake, side, fault kind)",
+        "rule": "for each handshake (sasl+bind on a secure stream, STARTTLS+SASL+bind with real TLS, WebSocket framing, a failing voluntary feature, XEP-0114 component; and the abort paths, a scripted peer provoking a stream-level abort: receiver under test - unadvertised / premature / repeated selection, stream error, garbage, unsupported version, mismatching restart header; initiator under test - stream error, unsupported version, mismatching header, garbage, malformed features, SASL failure) and each side under test: the peer's byte stream ends after every prefix length (quick: first/last 48 bytes and every 5th in between; thorough: every byte), the k-th read fails, the k-th write fails, the context is cancelled at the k-th transport operation with the peer playing on, with the peer silent and with a peer that has stopped reading as well (also with a context that carries a far-off deadline of its own), for every k; a class is (handshake, side, fault kind). Negotiation scenarios: seeded, with read / write faults, cancellation and with failing steps - each of a feature's three callbacks (List, Parse, Negotiate) may report its error before or after its I/O",
         "samples": summ["samples"][:3],
         "states": mc.distinct + mcn.distinct, "transitions": mc.generated + mcn.generated,
         "traces_validated_against_impl": summ["traces"] + summn["traces"],
         "baselines": summ["extra"]["baselines"], "rejected": len(rej) + len(rejn),
-        "deviations_shown_to_break_invariants": len(DEVS), "binding_selftest_mutants_rejected": nself,
+        "deviations_shown_to_break_invariants": len(DEVS) + len(nc.NEG_DEVS), "binding_selftest_mutants_rejected": nself,
         "exhaustive": not quick,
     }, assumptions=["one fault per run", "faults inside crypto/tls records are injected but their handling is crypto/tls's",
-                    "a call still blocked 5 s after its context was cancelled counts as having outlived the cancellation (the reaction is otherwise immediate)"])
+                    "a call that has not returned after the watchdog (10 s for an otherwise immediate reaction) has outlived its cancellation if at that moment it sits in a transport operation with no deadline in force and a frozen peer (nothing can end that operation any more); a call late for any other reason gets two more periods"])
 
 
 def selftest(ctx, trace):
